@@ -15,7 +15,7 @@ LOGIC = ["and", "or", "xor"]
 def gen_cmp(g):
     r = g.rng
     fams = g.families()
-    fam = r.choice([f for f in sorted(fams) if f != "dimensionless"])
+    fam = r.choice(sorted(fams))
     ua = r.choice(fams[fam])
     incompatible = r.random() < 0.15
     ub = r.choice(fams[r.choice([f for f in sorted(fams) if f != fam])]) if incompatible else r.choice(fams[fam])
@@ -38,14 +38,15 @@ def gen_cmp(g):
         # dimensionless right operand against a unit-carrying left operand raises (strict);
         # use a dimensionless left operand half of the time
         if r.random() < 0.6:
-            ua = ""
-            a = g.arr(sa, da, "", small=True)
+            # any dimensionless unit, scaled ones included (percent, degree, ...): the number is converted to it
+            fam = "dimensionless"
+            ua = r.choice(fams["dimensionless"])
+            a = g.arr(sa, da, ua, small=True)
             avals = [Fraction(x) for x in a["data"]]
-            fa = Fraction(1)
+            fa = Fraction(g.ujson(ua)["f"])
         ub = ""
         fb = Fraction(1)
-        if ua != "":
-            incompatible = True  # will raise; keep the values small
+        incompatible = fam != "dimensionless"  # a unit-carrying left operand against a bare number raises
         if pyk == "num":
             sb = []
             db = r.choice(["i8", "f8"])
@@ -70,6 +71,8 @@ def gen_cmp(g):
             d = r.choice([Fraction(1, 100), Fraction(1, 2), Fraction(-1, 100), Fraction(-1, 2)])
             v = conv * (1 + d) if conv != 0 else Fraction(r.choice([-1, 1]))
             v = Fraction(float(v))
+            if db in ("i4", "i8"):
+                v = Fraction(int(v))  # a Python int operand carries an integer value
         bvals.append(v)
     b = g.arr(sb, db, ub, values=bvals)
     prog = [{"op": "arr", "dst": 1, "v": a}]
@@ -114,7 +117,7 @@ def gen_chain(g):
     v = 0
     masks = []
     for _ in range(r.randint(2, 3)):
-        fam = r.choice([f for f in sorted(fams) if f != "dimensionless"])
+        fam = r.choice(sorted(fams))
         ua, ub = r.choice(fams[fam]), r.choice(fams[fam])
         v += 1
         prog.append({"op": "arr", "dst": v, "v": g.arr([n], "f8", ua, small=True)})
